@@ -40,7 +40,7 @@ Definition run_conn (kind : bytes) (args : list bytes) : bytes :=
     let r := mk_reader tail hs in
     let fuel := S (S (reader_bytes r)) in
     if beq kind (b "recv") then
-      join (b " | ") (map show_outcome (run (fuel + read_nat extra) (read_nat extra) (mkConn (policy0 flavour) []) r))
+      join (b " | ") (map show_outcome (run (fuel + read_nat extra) (read_nat extra) (mkConn (policy0 flavour) [] Initial) r))
     else
       match connect (policy0 flavour) r with
       | (Connected v c, r') =>
